@@ -270,4 +270,102 @@ theorem resolveAll_ok (ds : DescSet) (m : Msg) (cps : List RProp) (h : ∀ p ∈
     simp only [hr, Outcome.bind]
     exact ih (fun q hq => h q (List.mem_cons_of_mem _ hq))
 
+/-! ## a fuel-bounded evaluator of `clientProps`, for `decide`-able witnesses
+
+`clientProps` is defined by well-founded recursion, which neither `decide` nor the kernel unfolds.
+`clientPropsN` is the same function with a budget; whenever it finishes it agrees with
+`clientProps`. Used for examples and counterexamples only. -/
+
+def clientPropsN (reg : Reg) : Nat → List Ref → List RProp → Option (Outcome (List RProp))
+  | 0, _, _ => none
+  | _ + 1, _, [] => some (.ok [])
+  | n + 1, fl, prop :: rest =>
+    let here : Option (Outcome (List RProp)) :=
+      match prop.schema with
+      | .object ref true =>
+        if onStack fl ref then some (.ok [prop])
+        else
+          match reg.find ref.pkg ref.schema with
+          | none => some (.panic "unregistered reference")
+          | some e =>
+            match e.to with
+            | some (.object _ _ _ _ ps) =>
+              (clientPropsN reg n (fl ++ [ref]) ps).map fun o => o.map fun cs => cs.map (nestedClone prop.path)
+            | some _ => some (.panic "interface conversion: RootSchema is not *ObjectSchema")
+            | none => some (.panic "interface conversion: RootSchema is nil, not *ObjectSchema")
+      | _ => some (.ok [prop])
+    match here, clientPropsN reg n fl rest with
+    | some h, some r => some (h.bind fun a => r.map fun b => a ++ b)
+    | _, _ => none
+
+theorem clientPropsN_sound (reg : Reg) (n : Nat) (fl : List Ref) (ps : List RProp)
+    (r : Outcome (List RProp)) (h : clientPropsN reg n fl ps = some r) : clientProps reg fl ps = r := by
+  induction n generalizing fl ps r with
+  | zero => simp [clientPropsN] at h
+  | succ n ih =>
+    cases ps with
+    | nil => simp only [clientPropsN, Option.some.injEq] at h; subst h; simp [clientProps]
+    | cons prop rest =>
+      simp only [clientPropsN] at h
+      split at h
+      · rename_i hh rr hhere hrest
+        simp only [Option.some.injEq] at h
+        subst h
+        have hr := ih fl rest rr hrest
+        rw [clientProps, hr]
+        congr 1
+        -- the property itself
+        split at hhere
+        · rename_i ref hsch
+          simp only [hsch]
+          split at hhere
+          · rename_i hs
+            simp only [Option.some.injEq] at hhere
+            simp [hs, hhere]
+          · rename_i hs
+            simp only [hs, Bool.false_eq_true, ↓reduceDIte]
+            split at hhere
+            · rename_i hnone
+              simp only [Option.some.injEq] at hhere
+              subst hhere
+              split
+              · rfl
+              · rename_i e hf; rw [hnone] at hf; cases hf
+            · rename_i e hf
+              split
+              · rename_i hnone; rw [hf] at hnone; cases hnone
+              · rename_i e2 hf2
+                have : e2 = e := by rw [hf] at hf2; cases hf2; rfl
+                subst this
+                split at hhere
+                · rename_i p k en am ps' hto
+                  simp only [hto]
+                  cases hn : clientPropsN reg n (fl ++ [ref]) ps' with
+                  | none => simp [hn] at hhere
+                  | some o =>
+                    simp only [hn, Option.map_some, Option.some.injEq] at hhere
+                    subst hhere
+                    rw [ih _ _ o hn]
+                · rename_i x hno hto
+                  simp only [Option.some.injEq] at hhere
+                  subst hhere
+                  split
+                  · rename_i p k en am ps' hto'
+                    rw [hto'] at hto
+                    cases hto
+                    exact absurd rfl (hno _ _ _ _ _)
+                  · rfl
+                  · rename_i hto'; rw [hto'] at hto; cases hto
+                · rename_i hto
+                  simp only [Option.some.injEq] at hhere
+                  subst hhere
+                  simp [hto]
+        · rename_i hnot
+          simp only [Option.some.injEq] at hhere
+          subst hhere
+          split
+          · rename_i ref hsch; exact absurd hsch (hnot ref)
+          · rfl
+      · cases h
+
 end J5V.Schema.Reader
